@@ -157,6 +157,30 @@ def clean_results(desc, tag="clean", mode="dev"):
         shutil.rmtree(p, ignore_errors=True)
 
 
+def variant_reparam(desc, rng):
+    """re-parameterise ONE of several uses of a recipe that exists in more than one variant (dependency
+    `environment:` of one user edited, the other users untouched): the other variants and their
+    numbered workspaces stay, the edited one becomes a new variant"""
+    d = copy.deepcopy(desc)
+    uses = {}
+    for rn, r in sorted(d["recipes"].items()):
+        for dep in r.get("depends", []):
+            nm = dep if isinstance(dep, str) else dep.get("name")
+            uses.setdefault(nm, []).append((rn, dep))
+    cands = []
+    for nm, us in sorted(uses.items()):
+        if len(us) >= 2:
+            for rn, dep in us:
+                if isinstance(dep, dict) and dep.get("environment"):
+                    cands.append((nm, rn, dep))
+    if not cands:
+        return None
+    nm, rn, dep = rng.choice(cands)
+    k = rng.choice(sorted(dep["environment"]))
+    dep["environment"][k] = "rp%d" % rng.randrange(1000)
+    return d, "variant_reparam"
+
+
 def gen_history(rng, n, prefer=None):
     """list of project descriptions: random single edits and reverts to earlier states;
     prefer = edit kinds to favour (C05: edits that make steps re-execute, so that injected faults fire)"""
@@ -168,6 +192,11 @@ def gen_history(rng, n, prefer=None):
             hist.append(copy.deepcopy(rng.choice(hist[:-1])))
             kinds.append("revert")
             continue
+        if rng.random() < 0.2:
+            e = variant_reparam(hist[-1], rng)
+            if e is not None:
+                hist.append(e[0]); kinds.append(e[1])
+                continue
         e = None
         favour = prefer is not None and rng.random() < 0.8
         for _try in range(30 if favour else 6):
